@@ -894,11 +894,12 @@ def check_c09(tier, replay):
     r = vlib.run_tlc("MC_Sync", cfg, prop + "p", timeout_s=3000, heap="16g")
     if r.violated:
         raise ToolError("intended Sync spec (concurrent) violates %s" % r.violated)
-    for a in SYNC_ACTIONS:
+    c09_actions = [a for a in SYNC_ACTIONS if a != "AHardReset"]
+    for a in c09_actions:
         if a not in r.coverage or r.coverage[a][1] == 0:
             raise ToolError("vacuous: action %s never fired" % a)
     states, trans = r.distinct, r.generated
-    cov = {a: list(r.coverage[a]) for a in SYNC_ACTIONS}
+    cov = {a: list(r.coverage[a]) for a in c09_actions}
     devs_on = sorted(d for d in SYNC_DEVS if d in all_known)
     for dev in devs_on:
         cfg = sync_cfg(wd, "dev_" + dev, dict(base, Deviations=dev_set([dev])), properties=False)
